@@ -197,7 +197,9 @@ def digestScript (commitHex : Nat → String) : Spec → String
     (if s.submodules then " submodules" else "")
   | .url s =>
     (s.sha256.getD (s.sha1.getD s.url)) ++ " " ++
-      (if s.dir == "." || s.dir == "" then s.fileName else s.dir ++ "/" ++ s.fileName) ++ " " ++ s.extract ++
+      -- posixpath.join(dir, fileName)
+      (if s.dir == "" then s.fileName else if s.dir.endsWith "/" then s.dir ++ s.fileName
+       else s.dir ++ "/" ++ s.fileName) ++ " " ++ s.extract ++
       (if s.strip > 0 then " s" ++ toString s.strip else "") ++
       (match s.fileMode with | some m => " m" ++ toString m | none => "") ++
       (if s.sep then " sep" else "")
@@ -353,7 +355,11 @@ def step (st : St Spec Content) (j : Json) : St Spec Content × Json :=
     let fs := st.fs.map fun e => match cs.find? (fun c => c.1 == e.1) with
       | some c => (e.1, c.2)
       | none => e
-    ({ st with fs := fs }, Json.mkObj [("ok", Json.bool true)])
+    -- other directories that exist in the workspace (leftovers, things the user put there)
+    let plain := match j.getObjVal? "plain" with
+      | .ok (.arr a) => a.toList.map compsOf
+      | _ => st.plain
+    ({ st with fs := fs, plain := plain }, Json.mkObj [("ok", Json.bool true)])
   | "dev" =>
     let w := worldOf j
     let hexes := strList (j.getObjValD "hex")
